@@ -1,0 +1,18 @@
+//go:build verif
+
+package cache
+
+// Verification hooks for property C08 (redis promotion path of the cache).
+// Add-only; compiled only with -tags verif.
+
+import "time"
+
+// VerifConnected reports whether the ping loop has seen the redis server (Get/AsyncStore are no-ops before).
+func (c *RedisCache) VerifConnected() bool { return c.connected.Load() }
+
+// VerifRedisValue is the value layout RedisCache.AsyncStore writes (the real buildValue): what another
+// proxy instance sharing the redis server would have stored for (storedTime, expireTime, v).
+func VerifRedisValue(storedTime, expireTime time.Time, v []byte) []byte {
+	b := (*RedisCache)(nil).buildValue(storedTime, expireTime, v)
+	return append([]byte(nil), b...)
+}
